@@ -1685,6 +1685,23 @@ func sortBlocksShape(fn *Func) string {
 		_, ok := recvField(c, r)
 		return ok
 	}
+	// the sort must run on every path: a sort guarded by a condition (or inside a loop /
+	// switch) is reported as "sort-by-offset-conditional", which the tie refuses
+	found := func(fc *FuncCtx, call *ast.CallExpr) {
+		cond := false
+		for p := fc.parent(call); p != nil; p = fc.parent(p) {
+			switch p.(type) {
+			case *ast.IfStmt, *ast.ForStmt, *ast.RangeStmt, *ast.SwitchStmt, *ast.TypeSwitchStmt,
+				*ast.SelectStmt, *ast.CaseClause, *ast.CommClause, *ast.FuncLit, *ast.GoStmt, *ast.DeferStmt:
+				cond = true
+			}
+		}
+		if !cond {
+			res = "sort-by-offset"
+		} else if res == "no-sort" {
+			res = "sort-by-offset-conditional"
+		}
+	}
 	w := &Walker{maxDepth: 1}
 	w.onCall = func(fc *FuncCtx, call *ast.CallExpr, name string, mode callMode) {
 		if mode == modeDeferDecl || len(call.Args) == 0 || !inPlace(fc, call.Args[0]) {
@@ -1698,11 +1715,11 @@ func sortBlocksShape(fn *Func) string {
 			c, e := fc.resolve(call.Args[1])
 			if lit := c.litOf(e); lit != nil {
 				if a, b := twoParams(lit.Type); a != nil && ascendingBy(c, lit.Body, a, b, "Offset") {
-					res = "sort-by-offset"
+					found(fc, call)
 				}
 			} else if f := c.funcOfExpr(e, 0); f != nil && f.decl.Body != nil {
 				if a, b := twoParams(f.decl.Type); a != nil && ascendingBy(newFuncCtx(f), f.decl.Body, a, b, "Offset") {
-					res = "sort-by-offset"
+					found(fc, call)
 				}
 			}
 		case "sort.Sort", "sort.Stable":
@@ -1711,7 +1728,7 @@ func sortBlocksShape(fn *Func) string {
 			}
 			if less := methodOf(fc.typeOf(call.Args[0]), "Less"); less != nil && less.decl.Body != nil {
 				if a, b := twoParams(less.decl.Type); a != nil && ascendingBy(newFuncCtx(less), less.decl.Body, a, b, "Offset") {
-					res = "sort-by-offset"
+					found(fc, call)
 				}
 			}
 		}
